@@ -16,7 +16,6 @@ import (
 	"github.com/ozontech/file.d/offset"
 	"github.com/ozontech/file.d/plugin/input/file"
 	"github.com/ozontech/file.d/xtime"
-	"go.uber.org/zap"
 
 	"verifharness/internal/hx"
 )
@@ -121,7 +120,9 @@ func withNow(now int64, f func()) {
 
 func quietLogs() func() {
 	old := logger.Level.Level()
-	logger.Level.SetLevel(zap.FatalLevel)
+	fatal := old
+	fatal = 5 // zapcore.FatalLevel (zap is not imported here: harness/go.mod stays as it is)
+	logger.Level.SetLevel(fatal)
 	return func() { logger.Level.SetLevel(old) }
 }
 
@@ -778,9 +779,9 @@ func genC07(w *bufio.Writer, rng *hx.Rng, tier string) {
 	}
 
 	// ---- random tables -----------------------------------------------------------------------
-	nrt, nparse, nseq := 2500, 2500, 300
+	nrt, nparse, nseq := 6000, 6000, 800
 	if thorough {
-		nrt, nparse, nseq = 60000, 60000, 6000
+		nrt, nparse, nseq = 90000, 90000, 12000
 	}
 	for i := 0; i < nrt; i++ {
 		rt(int64(rng.Intn(1000)), c07RandTable(rng, rng.Chance(1, 12), 4))
